@@ -75,6 +75,42 @@ Theorem C12_advance_panics_off_boundary : forall st rest n,
   is_char_boundary rest n = false -> advance st rest n = None.
 Proof. exact advance_panics. Qed.
 
+(* ------------------------------------------------------------------ all runs of the tokenizer *)
+
+(* lex_reach src st rest: the tokenizer can be at location st with `rest` unread — it starts at
+   (1, 0, 0) with the whole source and only moves by advance!, by any number of bytes (an
+   over-approximation of basic_tokenize: every choice of lengths).  parser_span: a span built by
+   make_span! between two such states, or derived by Span::expand towards a later token / eoi(). *)
+
+(* whatever the bytes are — '\r' alone, "\n\r", "\r\r\n", VT, FF, U+0085, U+2028, no final line
+   terminator — every state of every run agrees with the reference line/column *)
+Theorem C12_lexer_run_invariant : forall src, valid_utf8 src -> forall st rest,
+  lex_reach src st rest ->
+  exists pre, src = pre ++ rest /\ l_byte st = length pre /\ valid_utf8 rest /\ loc_ok src st.
+Proof. exact lex_reach_inv. Qed.
+
+Theorem C12_parser_span_wf : forall src sp,
+  valid_utf8 src -> parser_span src sp -> span_wf src sp.
+Proof. exact parser_span_wf. Qed.
+
+(* the agreement between the lexer's line numbers and the report printer's line table is a
+   consequence of the lexer model (both count '\n' bytes and nothing else), not a hypothesis *)
+Theorem C12_parser_span_line_in_table : forall src sp, valid_utf8 src -> parser_span src sp ->
+  1 <= start_line sp <= length (get_line_starts src) /\
+  1 <= end_line sp <= length (get_line_starts src).
+Proof. exact parser_span_line_in_table. Qed.
+
+(* end to end with the lexer model as the only premise: an error at any such span, with notes at
+   such spans of their own sources, displays and quotes the lines the spans start on *)
+Theorem C12_lexer_report_total : forall e,
+  valid_utf8 (r_source e) -> parser_span (r_source e) (r_span e) ->
+  Forall note_from_lexer (r_notes e) ->
+  exists txt, generate_report e = Some txt /\
+    infix (line_containing (r_source e) (rstart (r_span e))) txt /\
+    Forall (fun n => infix (line_containing (n_source n) (rstart (n_span n))) txt /\
+                     infix (n_label n) txt /\ infix (n_filename n) txt) (r_notes e).
+Proof. exact lexer_report_total. Qed.
+
 (* ------------------------------------------------------------------ parser: expand, eoi *)
 
 (* Span::expand takes the start of self and the end of other without any check: the result is
@@ -216,6 +252,17 @@ Theorem C12_linecol_monotone : forall src a b, a <= b ->
   la < lb \/ (la = lb /\ ca <= cb).
 Proof. exact linecol_monotone. Qed.
 
+(* what one byte does to the reference line/column: only '\n' (byte 10) starts a new line;
+   a continuation byte changes nothing; every other byte, '\r' (13), VT (11), FF (12) and the
+   lead bytes of U+0085 (C2 85) and U+2028 (E2 80 A8) included, is one more column *)
+Theorem C12_linecol_step : forall pre b post,
+  let lc := linecol (pre ++ b :: post) (length pre) in
+  let lc' := linecol (pre ++ b :: post) (S (length pre)) in
+  (b = NL -> lc' = (S (fst lc), 0)) /\
+  (b <> NL -> is_cont b = true -> lc' = lc) /\
+  (b <> NL -> is_cont b = false -> lc' = (fst lc, S (snd lc))).
+Proof. exact linecol_step_cases. Qed.
+
 (* on a character boundary the column is the number of whole characters since the last '\n' *)
 Theorem C12_linecol_counts_chars : forall src off,
   valid_utf8 src -> off <= length src -> is_char_boundary src off = true ->
@@ -239,6 +286,10 @@ Print Assumptions C12_token_span_step.
 Print Assumptions C12_token_span_wf.
 Print Assumptions C12_advance_total_on_boundaries.
 Print Assumptions C12_advance_keeps_invariant.
+Print Assumptions C12_lexer_run_invariant.
+Print Assumptions C12_parser_span_line_in_table.
+Print Assumptions C12_lexer_report_total.
+Print Assumptions C12_linecol_step.
 Print Assumptions C12_expand_preserves_wf.
 Print Assumptions C12_eoi_span_wf.
 Print Assumptions C12_eoi_unpatched_refuted.
@@ -309,3 +360,30 @@ Example ex_hull :
   expand_span tbl (combine_spans (0, 0) (1, 1)) = Some (mkspan 1 3 1 8 3 8) /\
   expand_span tbl (3, 3) = None.
 Proof. vm_compute. split; reflexivity. Qed.
+
+(* line-ending flavours.  "a\r{{ 1 | nope }}": the lone '\r' is a character of line 1, so `nope`
+   (bytes 9..13) is at 1:9; the printer's line table has one entry *)
+Definition cr_src : list N := [97; 13; 123; 123; 32; 49; 32; 124; 32; 110; 111; 112; 101; 32; 125; 125]%N.
+Example ex_cr_line_starts : get_line_starts cr_src = [0].
+Proof. vm_compute. reflexivity. Qed.
+Example ex_cr_span : span_wf cr_src (mkspan 1 9 1 13 9 13) /\ ~ span_wf cr_src (mkspan 2 7 2 11 9 13).
+Proof.
+  split; [apply span_wfb_ok; vm_compute; reflexivity|].
+  intros H. apply span_wfb_ok in H. vm_compute in H. discriminate.
+Qed.
+(* the model of the lexer, run over "a\r", "{{", " ", "1", ..., gives 1:9 for `nope` *)
+Example ex_cr_lexer_run :
+  let st1 := advance_over loc_init (firstn 9 cr_src) in
+  let st2 := advance_over st1 (firstn 4 (skipn 9 cr_src)) in
+  make_span st1 st2 = mkspan 1 9 1 13 9 13.
+Proof. vm_compute. reflexivity. Qed.
+(* a span that called the lone '\r' a line break (line 2) cannot be displayed: the printer panics *)
+Example ex_cr_line2_panics :
+  generate_report (mkreport [] [] cr_src (mkspan 2 7 2 11 9 13) []) = None.
+Proof. vm_compute. reflexivity. Qed.
+(* "\r\r\n" is two characters and then a line break; U+2028 / U+0085 / VT / FF are one column each *)
+Example ex_flavours :
+  linecol [13; 13; 10; 120]%N 3 = (2, 0) /\ linecol [13; 13; 10; 120]%N 2 = (1, 2) /\
+  linecol [10; 13; 120]%N 2 = (2, 1) /\
+  linecol [226; 128; 168; 194; 133; 11; 12; 120]%N 7 = (1, 4).
+Proof. vm_compute. repeat split; reflexivity. Qed.
